@@ -651,7 +651,7 @@ impl Config {
 
         // validation_threads
         if let Some(value) = args.validation_threads {
-            self.validation_threads = value
+            self.validation_threads = value.into()
         }
 
         // log_level
@@ -770,7 +770,7 @@ impl Config {
 
         // history_size
         if let Some(value) = args.history {
-            self.history_size = value
+            self.history_size = value.into()
         }
 
         // rtr_listen
@@ -1936,7 +1936,7 @@ struct GlobalArgs {
 
     /// Number of threads for validation
     #[arg(long, value_name = "COUNT")]
-    validation_threads: Option<usize>,
+    validation_threads: Option<u16>,
 
     /// Log more information, twice for even more
     #[arg(short, long, action = ArgAction::Count)]
@@ -1989,7 +1989,7 @@ struct ServerArgs {
 
     /// Number of history items to keep [default 10]
     #[arg(long, value_name = "COUNT")]
-    history: Option<usize>,
+    history: Option<u16>,
 
     /// Listen on address/port for RTR
     #[arg(long = "rtr", value_name = "ADDR:PORT")]
